@@ -218,3 +218,121 @@ package common
 //@   ensures forall k in 0..len(bytes) :: (result[k] != nil && fresh(result[k]) && val(result[k]) == beint(bytes(bytes[k])) && val(result[k]) >= 0)
 //@   loop 0 invariant len(ints) == len(bytes) && fresh(ints)
 //@   loop 0 invariant forall k in 0..$iter :: (ints[k] != nil && fresh(ints[k]) && allocated(ints[k]) && val(ints[k]) == beint(bytes(bytes[k])) && val(ints[k]) >= 0)
+
+// ---- safe_prime.go ----
+//@ global !isnil(ErrGeneratorCancelled)
+//@ global smallPrimesProduct != nil && val(smallPrimesProduct) == 16294579238595022365 && len(smallPrimes) == 15 && (forall i in 0..15 :: (3 <= smallPrimes[i] && smallPrimes[i] <= 53))
+
+// sgpOK(g, L): what the generator promises of a pair it hands out for a
+// requested bit length L: q and p = 2q+1 both pass the primality test, q has
+// exactly L-1 bits, p has exactly L bits, and the two top bits of each are set
+// (x >= 3*2^(n-2) for an n-bit x)
+//@ define sgpPair(g) = g != nil && g.q != nil && g.p != nil && val(g.p) == 2 * val(g.q) + 1 && probprime(val(g.q), 30) && probprime(val(g.p), 30)
+//@ define sgpOK(g, L) = sgpPair(g) && bitlen(val(g.q)) == L - 1 && val(g.q) >= 3 * pow2(L - 3) && bitlen(val(g.p)) == L && val(g.p) >= 3 * pow2(L - 2)
+// lemma instances (prelude: each is true; naming it makes the solver use the fact)
+//@ define lemPow2s(x) = lemPow2(x) && lemPow2(x - 1) && lemPow2(x - 2) && lemPow2(x - 3) && lemPow2(x - 4) && lemPow2(x - 5) && lemPow2(x - 6) && lemPow2(x - 7) && lemPow2(x - 8)
+//@ define lemLeads(s) = lemLead(s, 3) && lemLead(s, 6) && lemLead(s, 12) && lemLead(s, 24) && lemLead(s, 48) && lemLead(s, 96) && lemLead(s, 192) && lemLead2(s, 384)
+
+//@ func (*GermainSafePrime).Prime
+//@   props C19 C06
+//@   requires sgp != nil
+//@   ensures result == sgp.q
+
+//@ func (*GermainSafePrime).SafePrime
+//@   props C19 C06
+//@   requires sgp != nil
+//@   ensures result == sgp.p
+
+//@ func getSafePrime
+//@   props C19 C06
+//@   requires p != nil
+//@   ensures result != nil && fresh(result) && val(result) == 2 * val(p) + 1
+
+//@ func probablyPrime
+//@   props C19 C06
+//@   ensures result <==> (prime != nil && probprime(val(prime), 30))
+
+//@ func (*GermainSafePrime).Validate
+//@   props C19 C06
+//@   requires sgp != nil
+//@   requires [safe-prime-field-present] sgp.q != nil ==> sgp.p != nil
+//@   ensures [C19.validate-accepts-exactly-prime-pairs-with-p=2q+1] result <==> sgpPair(sgp)
+
+//@ func isPocklingtonCriterionSatisfied
+//@   props C19 C06
+//@   requires p != nil
+//@   requires [modulus-not-negative] val(p) >= 0
+//@   ensures val(p) >= 1 ==> (result <==> powmod(2, val(p) - 1, val(p)) == 1)
+
+//@ func isPrimeCandidate
+//@   props C19 C06
+//@   requires number != nil
+
+// the k-th pair handed out on a channel of *GermainSafePrime
+//@ define gsp(ch, k) = as(sentv(ch, k), "*common.GermainSafePrime")
+// scratch integers of one worker: present, pairwise distinct, not the shared table constant
+//@ define sgpScratch(p, q, bigMod) = p != nil && q != nil && bigMod != nil && p != q && p != bigMod && q != bigMod && p != smallPrimesProduct && q != smallPrimesProduct && bigMod != smallPrimesProduct && val(p) >= 0 && val(q) >= 0
+//@ define sgpTable() = smallPrimesProduct != nil && val(smallPrimesProduct) == 16294579238595022365 && len(smallPrimes) == 15 && (forall i in 0..15 :: (3 <= smallPrimes[i] && smallPrimes[i] <= 53))
+// pair k is finished: well-formed for L, and no longer reachable from the worker's scratch integers
+//@ define sgpNew(ch, k, p, q) = fresh(gsp(ch, k)) && (fresh(gsp(ch, k).p) || gsp(ch, k).p == old(p)) && (fresh(gsp(ch, k).q) || gsp(ch, k).q == old(q))
+//@ define sgpDone(ch, k, L, p, q, bigMod) = sgpOK(gsp(ch, k), L) && allocated(gsp(ch, k)) && allocated(gsp(ch, k).p) && allocated(gsp(ch, k).q) && gsp(ch, k).p != p && gsp(ch, k).p != q && gsp(ch, k).p != bigMod && gsp(ch, k).q != p && gsp(ch, k).q != q && gsp(ch, k).q != bigMod
+
+//@ func runGenPrimeRoutine
+//@   props C19 C14 C06
+//@   requires !isnil(ctx) && primeCh != nil && errCh != nil && primeCh != errCh && waitGroup != nil && !isnil(rand) && pBitLen >= 6 && pBitLen <= 1048576
+//@   modifies sent(primeCh), sent(errCh)
+//@   ensures [C19.every-pair-handed-out-is-a-safe-prime-pair-of-the-requested-size] forall k in old(sent(primeCh))..sent(primeCh) :: sgpOK(gsp(primeCh, k), pBitLen)
+//@   ensures [pairs-are-new-objects] forall k in old(sent(primeCh))..sent(primeCh) :: (fresh(gsp(primeCh, k)) && fresh(gsp(primeCh, k).p) && fresh(gsp(primeCh, k).q))
+//@   ensures sent(primeCh) >= old(sent(primeCh)) && (forall k in 0..old(sent(primeCh)) :: sentv(primeCh, k) == old(sentv(primeCh, k)))
+//@   ensures sent(errCh) == old(sent(errCh)) || sent(errCh) == old(sent(errCh)) + 1
+//@   ensures sent(errCh) == old(sent(errCh)) + 1 ==> !isnil(as(sentv(errCh, old(sent(errCh))), "error"))
+//@   ensures forall k in 0..old(sent(errCh)) :: sentv(errCh, k) == old(sentv(errCh, k))
+
+//@ func runGenPrimeRoutine$1
+//@   props C19 C14 C06
+//@   requires !isnil(ctx) && primeCh != nil && errCh != nil && primeCh != errCh && waitGroup != nil && !isnil(rand)
+//@   requires qBitLen >= 5 && qBitLen <= 1048576 && 1 <= b && b <= 8 && b == ite(qBitLen % 8 == 0, 8, qBitLen % 8) && len(bytes) == (qBitLen + 7) / 8 && arr(bytes) != arr(smallPrimes)
+//@   requires sgpScratch(p, q, bigMod)
+//@   modifies sent(primeCh), sent(errCh), val(p), val(q), val(bigMod), bytes[*], cellof(p), cellof(q)
+//@   ensures [C19.every-pair-handed-out-is-a-safe-prime-pair-of-the-requested-size] forall k in old(sent(primeCh))..sent(primeCh) :: sgpOK(gsp(primeCh, k), qBitLen + 1)
+//@   ensures [pairs-are-new-objects] forall k in old(sent(primeCh))..sent(primeCh) :: (fresh(gsp(primeCh, k)) && (fresh(gsp(primeCh, k).p) || gsp(primeCh, k).p == old(p)) && (fresh(gsp(primeCh, k).q) || gsp(primeCh, k).q == old(q)))
+//@   ensures sent(primeCh) >= old(sent(primeCh)) && (forall k in 0..old(sent(primeCh)) :: sentv(primeCh, k) == old(sentv(primeCh, k)))
+//@   ensures sent(errCh) == old(sent(errCh)) || sent(errCh) == old(sent(errCh)) + 1
+//@   ensures sent(errCh) == old(sent(errCh)) + 1 ==> !isnil(as(sentv(errCh, old(sent(errCh))), "error"))
+//@   ensures forall k in 0..old(sent(errCh)) :: sentv(errCh, k) == old(sentv(errCh, k))
+//@   loop 0 invariant sgpScratch(p, q, bigMod) && (p == old(p) || fresh(p)) && (q == old(q) || fresh(q)) && bigMod == old(bigMod) && sgpTable()
+//@   loop 0 invariant sent(primeCh) >= old(sent(primeCh)) && (forall k in 0..old(sent(primeCh)) :: sentv(primeCh, k) == old(sentv(primeCh, k))) && sent(errCh) == old(sent(errCh))
+//@   loop 0 invariant forall k in 0..old(sent(errCh)) :: sentv(errCh, k) == old(sentv(errCh, k))
+//@   loop 0 invariant forall k in old(sent(primeCh))..sent(primeCh) :: sgpDone(primeCh, k, qBitLen + 1, p, q, bigMod)
+//@   loop 0 invariant forall k in old(sent(primeCh))..sent(primeCh) :: sgpNew(primeCh, k, p, q)
+//@   loop 1 invariant sgpScratch(p, q, bigMod) && sgpTable()
+//@   loop 1 invariant lemLeads(bytes(bytes)) && lemPow2s(qBitLen) && lemPow2(qBitLen + 1)
+//@   loop 1 invariant [C19.candidate-has-its-two-top-bits-set] val(q) >= 3 * pow2(qBitLen - 2)
+//@   loop 1 invariant forall k in old(sent(primeCh))..sent(primeCh) :: sgpDone(primeCh, k, qBitLen + 1, p, q, bigMod)
+//@   loop 1 invariant forall k in old(sent(primeCh))..sent(primeCh) :: sgpNew(primeCh, k, p, q)
+
+// GetRandomSafePrimesConcurrent: starts the workers (join rule: each runs to
+// completion where it is started), then collects numPrimes pairs. What comes
+// out of the channel is what a worker put in, so every pair returned satisfies
+// the worker's promise.
+//@ func GetRandomSafePrimesConcurrent
+//@   props C19 C14 C06
+//@   deadpoints 1
+//@   requires !isnil(ctx) && !isnil(rand)
+//@   requires [sizes-fit] bitLen <= 1048576 && numPrimes <= 1048576 && 0 <= concurrency && concurrency <= 1048576
+//@   ensures [C19.size-below-six-bits-or-no-primes-requested-is-refused] (bitLen < 6 || numPrimes < 1) ==> (result1 != nil && len(result0) == 0)
+//@   ensures [C19.returns-the-requested-number-of-pairs] result1 == nil ==> len(result0) == numPrimes
+//@   ensures [C19.every-returned-pair-is-a-safe-prime-pair-of-the-requested-size] result1 == nil ==> (forall i in 0..numPrimes :: sgpOK(result0[i], bitLen))
+//@   ensures [pairs-are-new-objects] result1 == nil ==> (forall i in 0..numPrimes :: (fresh(result0[i]) && fresh(result0[i].p) && fresh(result0[i].q)))
+//@   loop 0 invariant 0 <= i && primeCh != nil && errCh != nil && primeCh != errCh && fresh(primeCh) && fresh(errCh) && waitGroup != nil && !isnil(generatorCtx) && cancelGeneratorCtx != nil && len(primes) == 0 && cap(primes) == numPrimes && fresh(arr(primes))
+//@   loop 0 invariant !closed(primeCh) && !closed(errCh) && recvd(primeCh) == 0 && recvd(errCh) == 0 && sent(primeCh) >= 0 && sent(errCh) >= 0
+//@   loop 0 invariant forall k in 0..sent(errCh) :: !isnil(as(sentv(errCh, k), "error"))
+//@   loop 0 invariant forall k in 0..sent(primeCh) :: (sgpOK(gsp(primeCh, k), bitLen) && fresh(gsp(primeCh, k)) && fresh(gsp(primeCh, k).p) && fresh(gsp(primeCh, k).q))
+//@   loop 1 invariant primeCh != nil && errCh != nil && primeCh != errCh && fresh(primeCh) && fresh(errCh) && waitGroup != nil && cancelGeneratorCtx != nil && fresh(arr(primes)) && cap(primes) >= numPrimes
+//@   loop 1 invariant !closed(primeCh) && !closed(errCh) && 0 <= recvd(primeCh) && recvd(primeCh) <= sent(primeCh)
+//@   loop 1 invariant len(primes) + needed == numPrimes
+//@   loop 1 invariant needed >= 1
+//@   loop 1 invariant forall k in 0..sent(errCh) :: !isnil(as(sentv(errCh, k), "error"))
+//@   loop 1 invariant 0 <= recvd(errCh) && recvd(errCh) <= sent(errCh)
+//@   loop 1 invariant forall k in 0..sent(primeCh) :: (sgpOK(gsp(primeCh, k), bitLen) && fresh(gsp(primeCh, k)) && fresh(gsp(primeCh, k).p) && fresh(gsp(primeCh, k).q))
+//@   loop 1 invariant forall k in 0..len(primes) :: (sgpOK(primes[k], bitLen) && fresh(primes[k]) && fresh(primes[k].p) && fresh(primes[k].q))
